@@ -15,9 +15,11 @@ PROP = dict(
           "forwarding fee exact, -1, +1, +777, 0 and negative; time lock exact or one block short; launch phase and "
           "trigger), 0-2 restarts of all three nodes (graceful stop, channels and switches rebuilt from the databases, "
           "invoice registries and preimage caches kept) triggered after a generated number of HTLC messages or when the "
-          "wire is idle, and per pre-restart phase 0-2 connection cuts (the k-th add/commit_sig/revoke_and_ack/fulfill/fail "
-          "on one of the four directed edges and everything after it - optionally the reverse direction too - is lost until "
-          "the restart). A quarter of the cases use a burst template (>=3 adds in one commitment, one refused by the forwarder, "
+          "wire is idle, 0-2 link flaps (both links of one channel stopped and re-created from the database while the "
+          "switches, mailboxes and circuit maps keep running) and per phase 0-2 connection cuts (the k-th "
+          "add/commit_sig/revoke_and_ack/fulfill/fail on one of the four directed edges and everything after it - optionally "
+          "the reverse direction too - is lost until the peers reconnect: the next restart, a generated flap, or the flap the "
+          "harness performs when the wire has gone idle in the last phase). A quarter of the cases use a burst template (>=3 adds in one commitment, one refused by the forwarder, "
           "one held, two restarts). After the last phase all hold invoices are resolved and the harness polls for quiescence "
           "(every payment result known, all four channel ends IsChannelClean) with doomed 'nudge' payments when the wire is "
           "idle; deadline (90 s) => the case is counted 'inconclusive' and asserts nothing. Oracle: (A) no HTLC / pending "
@@ -35,7 +37,8 @@ PROP = dict(
           "(G) a forwarded HTLC whose circuit is half-open and loaded from disk after the incoming link finished "
           "reprocessing its packages, with nothing pending and a silent wire for 20 s, is reported as dangling. "
           "Non-trivial = the lifetimes (first add on the wire .. result known to the sender) of >=2 payments overlapped AND "
-          "(a cut fired OR a restart found an HTLC / pending commitment in some durable channel state). Distinct = "
+          "(a cut fired OR a restart found an HTLC / pending commitment in some durable channel state OR a flap hit a "
+          "channel that was not clean). Distinct = "
           "distinct plans."),
     level_note=("Weak by nature: the interleaving of link, switch and mailbox goroutines is chosen by the Go runtime; the "
                 "harness controls only the payment batch, the cut points, the restart points and the order of its own "
@@ -44,9 +47,10 @@ PROP = dict(
                 "still a violation). The thorough tier runs under the race detector, which also perturbs schedules."),
     assumptions=[
         "goroutine schedules are chosen by the Go runtime (with and without -race); only schedules that occurred were checked",
-        "faults are connection cuts (a prefix of each directed message stream is delivered) and graceful whole-network "
-        "restarts (Switch.Stop / link.Stop, then everything rebuilt from the databases); crashes inside a database "
-        "transaction, single-link restarts and reordering are not generated",
+        "faults are connection cuts (a prefix of each directed message stream is delivered), graceful whole-network "
+        "restarts (Switch.Stop / link.Stop, then everything rebuilt from the databases) and graceful link flaps "
+        "(Switch.RemoveLink on both ends, queues drained, new links from the database, reestablish held until both "
+        "exist); crashes inside a database transaction, one-sided link restarts and reordering are not generated",
         "one channeldb per node (createTestChannel re-implemented with the databases passed in): the repo fixture's "
         "createClusterChannels gives Bob's two channels separate files, which silently drops the cross-channel "
         "settle/fail acks this property is about",
